@@ -45,6 +45,7 @@ ASSUMPTIONS = [
 SOFT_BUDGET_S = {"quick": 120, "thorough": 3000}
 
 CATS = ["states", "alg_states", "inputs", "constants", "parameters", "string_constants", "string_parameters"]
+ALIASES_ON = True  # some variables are declared through "type RealA = Real(..)" aliases
 DER_ON_PREFIXED = True  # also differentiate Real parameters/constants/top-level inputs (precedence over 'state')
 
 
@@ -74,11 +75,11 @@ def print_decls(decls):
         parts = [d["name"] + d.get("dims", "") + value_text(d)]
         j = i + 1
         while j < len(decls) and decls[j]["k"] == "var" and decls[j].get("join") and all(
-            decls[j][f] == d[f] for f in ("type", "var", "io")
+            decls[j].get(f) == d.get(f) for f in ("type", "var", "io", "alias")
         ):
             parts.append(decls[j]["name"] + decls[j].get("dims", "") + value_text(decls[j]))
             j += 1
-        out += "  " + " ".join(prefix_words(d) + [d["type"]]) + " " + ", ".join(parts) + ";\n"
+        out += "  " + " ".join(prefix_words(d) + [ALIAS[d["type"]] if d.get("alias") else d["type"]]) + " " + ", ".join(parts) + ";\n"
         i = j
     return out
 
@@ -92,8 +93,16 @@ def print_class(name, decls, eqs, ieqs):
     return out + "end %s;\n" % name
 
 
+ALIAS = {"Real": "RealA", "Integer": "IntA", "Boolean": "BoolA"}
+
+
 def print_case(case):
     out = ""
+    used = sorted({d["type"] for ds in [case["decls"]] + ([case["sub"]["decls"]] if case.get("sub") else [])
+                   for d in ds if d["k"] == "var" and d.get("alias")})
+    for t in used:
+        # a type alias of a builtin (with a modification of its own when it is Real)
+        out += "type %s = %s%s;\n" % (ALIAS[t], t, "(nominal = 2)" if t == "Real" else "")
     if case.get("sub"):
         s = case["sub"]
         out += print_class("Sub", s["decls"], s["eqs"], s["ieqs"])
@@ -299,12 +308,16 @@ def check_case(ctx, case):
         if g == "":
             labels.add("prefix:" + prefix_combo(d))
             labels.add("type:" + d["type"])
+            if d.get("alias"):
+                labels.add("alias_typed:" + (prefix_combo(d)))
             if len(words) >= 2:
                 multi_prefix = True
             if d["type"] == "String":
                 labels.add("string_" + d["var"])
         else:
             labels.add("subprefix:" + (" ".join(written) or "none"))
+            if src.get("alias") and src["io"]:
+                labels.add("sub_alias_typed_%s" % src["io"])
             if len(written) >= 2:
                 multi_prefix = True
             if src["io"]:
@@ -420,6 +433,8 @@ def decl_list(r, n, n_derivable, prefix, sub=False):
     for i, s in enumerate(specs):
         v = with_value(r, s)
         v.update(k="var", name="%s%d" % (prefix, i), join=r.int(0, 2) > 0)
+        if ALIASES_ON and v["type"] in ALIAS and r.int(0, 3) == 0:
+            v["alias"] = True  # declared through a type alias of the builtin
         out.append(v)
     return out
 
